@@ -21,6 +21,15 @@ QUICK = ('c06', 'c16', 'c17', 'c03', 'c05', 'c07', 'c18', 'c14', 'c19', 'c13', '
 SAN_PREFIX = '-fsanitize'
 
 
+
+def _rel(path):
+    """source path relative to the analysed tree (/repo, or the GLM_REPO override of the developer tools), with any ../ of an include chain folded"""
+    import os
+    from laneflow import build as _B
+    q = os.path.normpath(path)
+    root = os.path.normpath(_B.REPO) + os.sep
+    return q[len(root):] if q.startswith(root) else q
+
 def mem_cfg(cfg):
     flags = tuple(f for f in cfg.flags if not f.startswith(SAN_PREFIX))
     return Cfg(cfg.name + '@mem', defines=cfg.defines, flags=flags, headers=cfg.headers, noinline=(), std=cfg.std, prelude=cfg.prelude, peel=0, pre_text=cfg.pre_text, memcheck='only')
@@ -38,7 +47,7 @@ def judge_of(km, origin):
         bad = [r for r in d['records'] if r['what'] in ('out_of_bounds', 'misaligned', 'type_pun')]
         if bad:
             r = bad[0]
-            where = ['%s:%d %s' % (f.replace('/repo/', ''), ln, fn) for f, ln, fn in r['dbg']][:5]
+            where = ['%s:%d %s' % (_rel(f), ln, fn) for f, ln, fn in r['dbg']][:5]
             obj = {'local': 'a local object of type %s' % r['name'].split(' = ')[0], 'arg': 'kernel argument %s' % r['name'], 'global': 'the global %s' % r['name']}[r['obj']]
             if r['what'] == 'type_pun':
                 return [R.ob(name, 'aliasing', R.REFUTED, '%s at offset %d of %s: %s is a plain typed access in the baseline compiler\'s (g++) intrinsic headers, so this is a strict-aliasing violation '
